@@ -18,12 +18,12 @@ class PaxosWorld(NetWorld):
     """
 
     def __init__(self, n=3, proposers=(0, 1), max_retries=1, max_ballot=3, double=False,
-                 mute=(), cut=(), max_moves=None, live=False, initial=()):
+                 mute=(), cut=(), drop=(), max_moves=None, live=False, initial=()):
         super().__init__()
         self.p = dict(n=n, proposers=tuple(proposers), max_retries=max_retries, max_ballot=max_ballot,
                       double=double, mute=tuple(mute), cut=tuple(tuple(c) for c in cut), max_moves=max_moves,
-                      live=live)
-        assert not (live and (mute or cut or len(self.p["proposers"]) != 1 or double)), \
+                      live=live, drop=tuple(tuple(d) for d in drop))
+        assert not (live and (mute or cut or drop or len(self.p["proposers"]) != 1 or double)), \
             "liveness premise: fault-free network, a single proposer"
         self.conf = False
         self.accept_sent = {}  # (ballot, dst) -> number of Accept messages sent
@@ -54,6 +54,8 @@ class PaxosWorld(NetWorld):
     def deliverable(self, m):
         if m[0] in self.p["mute"]:
             return False
+        if (m[0], m[1]["source"], m[1]["destination"]) in self.p["drop"]:
+            return False  # this message type on this directed link is always lost
         return (m[1]["source"], m[1]["destination"]) not in self.p["cut"]
 
     def apply(self, lab):
